@@ -203,6 +203,13 @@ def consistency(g, label: str = "consistency") -> None:
             mon.fail(label + ".resolution", wit({"exc": ex}), key="resolution-raises", cls=fam)
         else:
             cxp, cyp = g.shape[1] / 2, g.shape[0] / 2
+            va_ = aff_of(g)
+            ccx, ccy = va_[0] * cxp + va_[1] * cyp + va_[2], va_[3] * cxp + va_[4] * cyp + va_[5]
+            cp_ = g._mapping._pix
+            if not (cp_[:, 0].min() <= ccx <= cp_[:, 0].max() and cp_[:, 1].min() <= ccy <= cp_[:, 1].max()):
+                # a view far outside the hull of the control points (zoomed out 100 x): the local pixel size there is an extrapolation of the fitted polynomial
+                mon.skip(label + ".resolution", "GCP box centred outside the hull of its control points")
+                return
             pw, ex2 = call(lambda: g.pix2wld(np.array([cxp - 0.5, cxp + 0.5, cxp, cxp]), np.array([cyp, cyp, cyp - 0.5, cyp + 0.5])))
             if ex2 is None:
                 wx, wy = np.asarray(pw[0], dtype="float64"), np.asarray(pw[1], dtype="float64")
